@@ -35,8 +35,24 @@ func (s *statMem) Load(a uint16) uint8 {
 }
 
 func reportCase(r *rng.R, strategy string, prcnt int, start uint16, raws []int, vals []uint8, labels map[uint16][]string) string {
-	m := memory.NewLinearMemory(65536)
+	var m memory.Memory = memory.NewLinearMemory(65536)
 	n := len(raws)
+	// a range inside a banked window, on a banked machine with a non-default bank selected: the report must
+	// show what the program sees through its 16-bit view (value and count of the byte behind the address NOW)
+	if int(start) >= 0xA000 && int(start)+n <= 0xC000 && r.Chance(50) {
+		x := memory.NewX16Memory(memory.X2048K)
+		x.Store(0, uint8(2+r.Intn(250)))
+		x.ClearStatistics()
+		m = x
+		count("report.x16window")
+	} else if int(start) >= 0xDE00 && int(start)+n <= 0xDF00 && r.Chance(70) {
+		g := memory.NewNeoGeo(memory.NeoGeoRegisterPage+0xFE, 7)
+		g.Store(0xDFFF, uint8(1+r.Intn(120)))
+		g.Store(0xDFFE, uint8(1+r.Intn(60)))
+		g.ClearStatistics()
+		m = g
+		count("report.geowindow")
+	}
 	for i := 0; i < n; i++ {
 		a := start + uint16(i)
 		if raws[i] > 0 {
@@ -141,6 +157,14 @@ func reportStream(seed uint64, n int) {
 			start = uint16(0x10000 - ln) // range ends at $FFFF
 		case 1:
 			start = 0x0800
+		case 2:
+			if ln < 0x1F00 && r.Bool() {
+				start = 0xA000 + uint16(r.Intn(0x2000-ln))
+			} else if ln < 0xF0 {
+				start = 0xDE00 + uint16(r.Intn(0x100-ln))
+			} else {
+				start = uint16(r.Intn(0x10000 - ln))
+			}
 		default:
 			start = uint16(r.Intn(0x10000 - ln))
 		}
